@@ -80,6 +80,8 @@ def do_case(ctx, case):
     {"kind": "twins", "members": [case, ...]}: several such cases evaluated consecutively in this one process"""
     if case.get("kind") == "twins":
         return do_twins_case(ctx, case)
+    if case.get("kind") == "argreuse":
+        return do_argreuse_case(ctx, case)
     return do_single_case(ctx, case)
 
 
@@ -100,8 +102,50 @@ def do_twins_case(ctx, case):
     return out
 
 
-def do_single_case(ctx, case):
+def typed_int(k, k_type):
+    """layer ids as the integer types callers use: HEAD accepts numpy integers and int subclasses like plain ints"""
+    if k_type in (None, "int"):
+        return k
+    import numpy as np
+
+    if k_type == "int64":
+        return np.int64(k)
+    if k_type == "intp":
+        return np.intp(k)
+    if k_type == "int32":
+        return np.int32(k)
+
+    class LayerId(int):
+        pass
+
+    return LayerId(k)
+
+
+def do_argreuse_case(ctx, case):
+    """One set object (with negative ids) and one tuple of new values are passed to SEVERAL individuals of different
+    depth in sequence: the callee must not change the caller's objects, and every individual's views must agree."""
+    ctx.tally("argreuse")
+    S_obj = set(case["S"])
+    snapshot = set(S_obj)
+    before, out = len(ctx.violations), []
+    for m in case["members"]:
+        g = do_single_case(ctx, dict(m, S=list(case["S"])), S_obj=S_obj)
+        if g is not None:
+            out.append(g)
+        if S_obj != snapshot:
+            ctx.violation("oracle", "caller-set-mutated", f"get_partially_parameterized_quantum_circuit changed the caller's set of layer ids: {sorted(snapshot)} became {sorted(S_obj)} "
+                          f"(individual with {len(m['ind']['layers'])} layers)", case)
+            break
+    for v in ctx.violations[before:]:
+        if v["case"] is not case:
+            v["what"] = f"with ONE set object {sorted(snapshot)} passed to individuals of {[len(m['ind']['layers']) for m in case['members']]} layers in sequence: " + v["what"]
+            v["case"] = case
+    return out
+
+
+def do_single_case(ctx, case, S_obj=None):
     ind, S, k, new = case["ind"], case["S"], case["k"], case["new"]
+    k_arg = typed_int(k, case.get("k_type"))
     n, L = ind["n"], len(ind["layers"])
     ctx.tally(f"qubits={'>=11' if n >= 11 else n}")
     ctx.tally(f"layers={'>=11' if L >= 11 else L}")
@@ -114,13 +158,14 @@ def do_single_case(ctx, case):
         c_conc = o.get_quantum_circuit()
         pc = o.get_parameterized_quantum_circuit()
         c_assigned = pc.assign_parameters(o.get_parameter_values())
-        pp = o.get_partially_parameterized_quantum_circuit(set(S))
+        pp = o.get_partially_parameterized_quantum_circuit(set(S) if S_obj is None else S_obj)
         vals_S = [v for j in S_mod for v in o.get_layer_parameter_values(j)]
         pp_bound = pp.assign_parameters(vals_S)
         c_bylayer = o.get_partially_parameterized_quantum_circuit(set())
-        o2 = EVQEIndividual.change_layer_parameter_values(o, k, tuple(new))
+        o2 = EVQEIndividual.change_layer_parameter_values(o, k_arg, tuple(new))
         c_updated = o2.get_quantum_circuit()
-        p1 = o.get_partially_parameterized_quantum_circuit({k})
+        p1 = o.get_partially_parameterized_quantum_circuit({k_arg})
+        update_applied = [float(v).hex() for v in o2.get_layer_parameter_values(k)] == [float(v).hex() for v in new]
         c_single = p1.assign_parameters(tuple(new))
         other_values_kept = all(o2.get_layer_parameter_values(j) == o.get_layer_parameter_values(j) for j in range(L) if j != k % L)
         bylayer2 = o2.get_partially_parameterized_quantum_circuit(set())
@@ -138,6 +183,12 @@ def do_single_case(ctx, case):
     ):
         if not same_dag(r[a], r[b], n):
             ctx.violation("oracle", key, what + f" ({L} layers, {n} qubits; instruction lists differ)", case)
+    if not update_applied:
+        ctx.violation("oracle", "update-not-applied", f"change_layer_parameter_values(.., layer_id={k!r} as {case.get('k_type', 'int')}, new): layer {k % L} of the result does not hold the new values ({L} layers)", case)
+    if case.get("k_type"):
+        ctx.tally(f"layer-id-type={case['k_type']}")
+    if L > 256:
+        ctx.tally(f"very-deep:target={'last' if k % L == L - 1 else k % L}")
     if not other_values_kept:
         ctx.violation("oracle", "update-touches-other-layer", "change_layer_parameter_values changed the values of another layer", case)
     # contribution of the other layers untouched: by-layer circuits of ind and ind' differ only in layer k's instructions
@@ -204,6 +255,31 @@ def gen_case(rng, n=None, L=None):
     return {"ind": ind, "S": S, "k": k, "new": new}
 
 
+def gen_very_deep(rng, target):
+    """1 qubit, 258-300 layers; the replacement is aimed at layer `target` ('last' / -1 / an index around 256)"""
+    L = rng.randint(258, 300)
+    layers = [{"n": 1, "gates": [["R", 0]]} if rng.random() < 0.8 else {"n": 1, "gates": [["I", 0]]} for _ in range(L)]
+    for j in (255, 256, 257, 258 % L, L - 1):
+        layers[j] = {"n": 1, "gates": [["R", 0]]}
+    values = [round(rng.uniform(-3, 3), 4) + j * 1e-3 for j in range(sum(evqe.layer_n_parameters(l) for l in layers))]
+    k = L - 1 if target == "last" else target
+    return {"ind": {"n": 1, "layers": layers, "values": values}, "S": rng.choice([[], [-1], [257, 3], [k]]), "k": k, "new": [7.25, 8.5, 9.125]}
+
+
+def gen_typed_id(rng, k_type):
+    c = gen_case(rng, n=rng.choice([1, 2, 3]), L=rng.choice([2, 3, 4, 6]))
+    return dict(c, k_type=k_type)
+
+
+def gen_argreuse(rng):
+    """individuals of different depth, one shared set of (negative) layer ids"""
+    depths = rng.sample([1, 2, 3, 4, 5, 6], 3)
+    n = rng.choice([1, 2, 3])
+    members = [gen_case(rng, n=n, L=L) for L in depths]
+    S = sorted({rng.choice([-1, -1, -2, -3, 7, 9]) for _ in range(rng.choice([1, 1, 2]))})
+    return {"kind": "argreuse", "S": S, "members": members}
+
+
 TWIN_VALUES = {"-1.0/-2.0": (-1.0, -2.0), "-2.0/-1.0": (-2.0, -1.0), "int -1/-2.0": (-1, -2.0), "-2.0/int -2/-1.0": (-2.0, -2, -1.0), "0.0/-0.0": (0.0, -0.0)}
 
 
@@ -234,7 +310,7 @@ def run(ctx):
     translate.check_link(ctx, "C04")  # regenerate Gallina from /repo's current source; link lemmas coq/link/C04Link.v
     ctx.rule = ("random valid individuals, 1-13 qubits x 1-14 layers (both >= 11 occur: 'layer10' and 'q10' string-order effects), 12% parameterless layers, pairwise different values; "
                 "S = none / all / random subset incl. negative ids; k any integer in [-L, 2L); thorough: also every layer count 1-25 at 2 qubits; "
-                "values include -1.0 and -2.0 (equal hash); hash-collision twins: 2-3 individuals (or replacement vectors of one layer) identical except for -1.0 / -2.0 / int -1 / int -2 or 0.0 / -0.0, all views of each evaluated consecutively in one process; "
+                "very deep individuals (1 qubit, 258-300 layers) with the replacement aimed at layers 255..258 / last / -1; layer ids given as numpy.int64 / intp / int32 / an int subclass; argument reuse: ONE set object with negative ids passed to individuals of different depth in sequence (must stay unchanged); values include -1.0 and -2.0 (equal hash); hash-collision twins: 2-3 individuals (or replacement vectors of one layer) identical except for -1.0 / -2.0 / int -1 / int -2 or 0.0 / -0.0, all views of each evaluated consecutively in one process; "
                 "distinct = distinct (individual, S, k, new); non-trivial = individual has at least one parameter")
     cases = []
     cdir = core.ROOT / "corpus" / "C04"
@@ -245,6 +321,13 @@ def run(ctx):
     cases.append(gen_case(ctx.rng, n=12, L=2))
     for _ in range(ctx.n(110, 1500)):
         cases.append(gen_case(ctx.rng))
+    for target in ((255, 256, 257, 258, "last", -1) if ctx.quick else (0, 254, 255, 256, 257, 258, 259, "last", -1, -2, 557, -300)):
+        cases.append(gen_very_deep(ctx.rng, target))
+    for k_type in ("int64", "intp", "int32", "intsub"):
+        for _ in range(ctx.n(2, 12)):
+            cases.append(gen_typed_id(ctx.rng, k_type))
+    for _ in range(ctx.n(8, 60)):
+        cases.append(gen_argreuse(ctx.rng))
     for how in TWIN_VALUES:
         for where in ("values", "new"):
             for _ in range(ctx.n(1, 6)):
@@ -257,11 +340,11 @@ def run(ctx):
     glits, kept = [], []
     for c in cases:
         g = do_case(ctx, c)
-        ctx.case(c, nontrivial=c.get("kind") == "twins" or len(c["ind"]["values"]) > 0, sample=None)
+        ctx.case(c, nontrivial=c.get("kind") in ("twins", "argreuse") or len(c["ind"]["values"]) > 0, sample=None)
         for gg in ([] if g is None else g if isinstance(g, list) else [g]):
             glits.append(gg)
             kept.append(c)
-    small = [c for c in cases if c.get("kind") != "twins" and len(c["ind"]["layers"]) <= 2 and c["ind"]["n"] <= 2][:2]
+    small = [c for c in cases if c.get("kind") not in ("twins", "argreuse") and len(c["ind"]["layers"]) <= 2 and c["ind"]["n"] <= 2][:2]
     for c in small:
         ctx.samples.append(c)
     bad = core.model_mismatches("C04", IMPORTS, "check_case", glits, chunk=8)
